@@ -12,7 +12,7 @@
    ([quote_body]), `[amount=N]` is emitted as abs(amount - N) < 0.01, the loader strips the Merchant /
    Category / Subcategory cells ([loader_cells]) and the converter skips rows without category and tags.
 
-   Money: Z in units of 1/6400 (0.01 = 64 units, 1/128 = 50 units).  Dates: proleptic Gregorian ordinals.
+   Money: Z = exact value of the double in units of 2^-64 (see [near]).  Dates: proleptic Gregorian ordinals.
    Strings: bytes (UTF-8).  No proofs in this file. *)
 From Coq Require Import String Ascii List Bool ZArith NArith.
 From Tally Require Import Lib.Str.
@@ -228,15 +228,15 @@ Fixpoint rstrip0 (s : string) : string :=
                   | r' => String c r'
                   end
   end.
-Definition UNIT : Z := 6400.
-Definition CENT : Z := 64.
-(* repr(float) of a non-negative amount of v/6400 (< 1e16, at most 8 decimals): what the f-string {cond.value} prints *)
-Definition render_money (v : Z) : string :=
-  let n := Z.to_N v in
-  let ip := (n / 6400)%N in
-  let fp := ((n mod 6400) * 15625)%N in
-  let fs := rstrip0 (pad_left 8 (render_N fp)) in
-  render_N ip ++ "." ++ (if nonempty fs then fs else "0").
+(* Money: the EXACT value of the IEEE double the implementation holds, in units of 2^-64 (every double that
+   is 0 or at least 2^-11 in magnitude is a whole number of such units).  Order and equality of doubles are
+   those of their exact values.  The float test abs(a - v) < 0.01 is decided exactly: the subtraction rounds to
+   nearest (ties to even), rounding is monotone, and the double 0.01 = 5764607523034235 * 2^-59 has an odd
+   significand, so RN(x) < 0.01 iff |x| <= (pred(0.01) + 0.01) / 2 = NEAR_MID. *)
+Definition UNIT : Z := 18446744073709551616.          (* 2^64 *)
+Definition NEAR_MID : Z := 184467440737095504.        (* (2 * 5764607523034235 - 1) * 2^-60 in units of 2^-64 *)
+Definition DOUBLE_CENT : Z := 184467440737095520.     (* the double 0.01 itself, slightly above 1/100 *)
+Definition near (a v : Z) : bool := Z.leb (Z.abs (a - v)) NEAR_MID.
 
 (* civil date of a proleptic Gregorian ordinal (date.fromordinal) *)
 Local Open Scope Z_scope.
@@ -260,7 +260,9 @@ Close Scope Z_scope.
 
 (* ------------------------------------------------------------------ the loaded CSV rule and the transaction *)
 Inductive aop := AGt | AGe | ALt | ALe | AEq | ARange.
-Record acond := { a_op : aop; a_v : Z; a_hi : Z }.     (* ARange: a_v = min, a_hi = max *)
+(* ARange: a_v = min, a_hi = max.  a_txt / a_hi_txt: repr() of those floats, as f"{cond.value}" interpolates
+   them (float.__repr__ and the reading of a float literal are CPython's, not modelled: repr round-trips) *)
+Record acond := { a_op : aop; a_v : Z; a_hi : Z; a_txt : string; a_hi_txt : string }.
 Inductive dcond := DEq (d : Z) | DRange (lo hi : Z) | DMonth (m : Z) | DRel (n : Z).
 Record csv_rule := { pat : string; amts : list acond; dates : list dcond;
                      merchant : string; category : string; subcategory : string; tags : list string }.
@@ -284,9 +286,9 @@ Definition aop_text (o : aop) : string :=
   match o with AGt => ">" | AGe => ">=" | ALt => "<" | ALe => "<=" | AEq => "==" | ARange => ":" end.
 Definition acond_text (c : acond) : string :=
   match a_op c with
-  | ARange => "amount >= " ++ render_money (a_v c) ++ " and amount <= " ++ render_money (a_hi c)
-  | AEq => "abs(amount - " ++ render_money (a_v c) ++ ") < 0.01"
-  | o => "amount " ++ aop_text o ++ " " ++ render_money (a_v c)
+  | ARange => "amount >= " ++ a_txt c ++ " and amount <= " ++ a_hi_txt c
+  | AEq => "abs(amount - " ++ a_txt c ++ ") < 0.01"
+  | o => "amount " ++ aop_text o ++ " " ++ a_txt c
   end.
 Definition dcond_text (c : dcond) : string :=
   match c with
@@ -433,7 +435,7 @@ Definition amt_ok (t : txn) (c : acond) : bool :=
   let a := amount t in
   match a_op c with
   | AGt => Z.ltb (a_v c) a | AGe => Z.leb (a_v c) a | ALt => Z.ltb a (a_v c) | ALe => Z.leb a (a_v c)
-  | AEq => Z.ltb (Z.abs (a - a_v c)) CENT                       (* abs(amount - value) < 0.01 *)
+  | AEq => near a (a_v c)                                       (* abs(amount - value) < 0.01, in doubles *)
   | ARange => (Z.leb (a_v c) a && Z.leb a (a_hi c))%bool
   end.
 Definition date_ok (today : Z) (t : txn) (c : dcond) : bool :=
@@ -473,7 +475,7 @@ Section Semantics.
     match a with
     | ERegex p => re_search p (desc t)
     | EAmt o v => Some (cmpZ o (amount t) v)
-    | EAmtNear v => Some (Z.ltb (Z.abs (amount t - v)) CENT)
+    | EAmtNear v => Some (near (amount t) v)
     | EDate o d => Some (cmpZ o (date t) d)
     | EMonth m => Some (Z.eqb (month_of (date t)) m)
     end.
@@ -528,3 +530,47 @@ Fixpoint tbl_lookup (tbl : list (string * string * option bool)) (p d : string) 
   end.
 Definition tbl_search (tbl : list (string * string * option bool)) (p d : string) : option bool :=
   match tbl_lookup tbl p d with Some v => v | None => None end.
+
+(* ------------------------------------------------------------------ MerchantEngine.parse, one line at a time *)
+(* what the reader makes of ONE line of a rules file (inside a rule block or before the first header) *)
+Inductive line_kind :=
+  | KBlank | KComment
+  | KHeader (name : string) | KEmptyHeader
+  | KProp (key value : string)          (* key lower-cased and stripped, value stripped, nothing else removed *)
+  | KTopLevel                           (* before the first header: a variable / transform assignment or ignored text *)
+  | KGarbage.                           (* inside a rule and without a colon: "Unexpected content in rule" *)
+Definition is_colon (c : ascii) : bool := N.eqb (code c) 58.
+Definition is_lbr (c : ascii) : bool := N.eqb (code c) 91.
+Definition is_rbr (c : ascii) : bool := N.eqb (code c) 93.
+Definition is_hash (c : ascii) : bool := N.eqb (code c) 35.
+Fixpoint split_colon (s : string) : option (string * string) :=      (* str.split(':', 1) *)
+  match s with
+  | EmptyString => None
+  | String c r => if is_colon c then Some (EmptyString, r)
+                  else match split_colon r with Some (k, v) => Some (String c k, v) | None => None end
+  end.
+Fixpoint drop_last (s : string) : string :=
+  match s with
+  | EmptyString => EmptyString
+  | String c EmptyString => EmptyString
+  | String c r => String c (drop_last r)
+  end.
+Definition classify_line (in_rule : bool) (line : string) : line_kind :=
+  let s := strip line in
+  match s with
+  | EmptyString => KBlank
+  | String c0 r0 =>
+    if is_hash c0 then KComment
+    else if (is_lbr c0 && match last_char s with Some c => is_rbr c | None => false end)%bool then
+      let name := strip (drop_last r0) in                      (* stripped[1:-1].strip() *)
+      if nonempty name then KHeader name else KEmptyHeader
+    else if negb in_rule then KTopLevel
+    else match split_colon s with
+         | Some (k, v) => KProp (lower (strip k)) (strip v)
+         | None => KGarbage
+         end
+  end.
+Definition key_ok (k : string) : bool :=
+  (nonempty k && negb (sexists (fun c => (is_ws c || is_colon c)%bool) k)
+   && match k with String c _ => negb (is_hash c || is_lbr c) | EmptyString => false end
+   && String.eqb (lower k) k)%bool.
